@@ -73,7 +73,7 @@ def parseDisk (kv : List (String × String)) : Disk :=
 
 def parseFlag (s : String) : OFlag :=
   match s with
-  | "w" => .w | "rw" => .rw | "wt" => .wt | "wa" => .wa | _ => .r
+  | "w" => .w | "rw" => .rw | "wt" => .wt | "wa" => .wa | "rt" => .rt | "ra" => .ra | _ => .r
 
 def parseOp (s : String) : Option Op :=
   match s.splitOn "," with
